@@ -4,6 +4,8 @@ from __future__ import annotations
 
 import ast
 import collections
+import random
+import re
 from fractions import Fraction
 
 from harness import common as C
@@ -47,6 +49,11 @@ HELPER_FEATURES = [("tuple",), ("tuple", "float"), ("tuple", "div"), ("tuple", "
 LABELS = ("int", "float", "bool", "String")
 
 
+def has_main(src):
+    """the script has a column-0 `while True:` header (a comment that merely mentions one does not count)"""
+    return re.search(r"^while True:", src, re.M) is not None
+
+
 def merge_correspondence(ctx):
     """Lang.FnRet.merge_ret (extracted) vs the real _merge_return_types on EVERY label list of length <= 5 over the
     four scalar labels, with and without the has_void flag (2730 cases)."""
@@ -79,9 +86,20 @@ def helper_unit(ctx, thorough):
     rng = ctx.rng
     out = merge_correspondence(ctx)
     progs, srcs = [], []
+    nrng = random.Random(rng.getrandbits(64))          # layout noise has its own stream (derived from the seed)
+    nstats = collections.Counter()
     for b in H.CORPUS:
         progs.append(None)
         srcs.append(progen.HEADER + b)
+    for b in H.CORPUS:                                  # every hand-written helper script again with layout noise
+        nz = progen.Noise(nrng)
+        t = progen.noisy_text(b, nz)
+        if t != b:
+            progs.append(None)
+            srcs.append(progen.HEADER + t)
+            nstats.update(nz.stats)
+            nstats["noisy-programs"] += 1
+    n_corpus = len(srcs)
     n = 420 if thorough else 44
     gstats = collections.Counter()
     sites = collections.Counter()
@@ -90,7 +108,13 @@ def helper_unit(ctx, thorough):
         p = g.program(with_main=rng.random() < 0.8)
         p["input"] = gen_inputs(rng)
         progs.append(p)
-        srcs.append(progen.render(p))
+        if (i // len(HELPER_FEATURES)) % 2 == 1:
+            nz = progen.Noise(nrng)
+            srcs.append(progen.render(p, noise=nz))
+            nstats.update(nz.stats)
+            nstats["noisy-programs"] += 1
+        else:
+            srcs.append(progen.render(p))
         for k in ("kinds", "fx", "shapes"):
             for a, b in p["stats"][k].items():
                 gstats[f"{k}:{a}"] += b
@@ -98,7 +122,7 @@ def helper_unit(ctx, thorough):
         gstats["return-statements"] += p["stats"]["returns"]
         sites.update(p["stats"]["sites"])
     inputs = [p["input"] if p else "ar 14 300\nar 15 2\ndr 4 1\n" for p in progs]
-    loops = [(rng.choice([1, 2, 3]) if "while True:" in s else 0) for s in srcs]
+    loops = [(rng.choice([1, 2, 3]) if has_main(s) else 0) for s in srcs]
     res = run_pair(srcs, inputs, loops)
     stats = collections.Counter()
     for s, p, i, l, r in zip(srcs, progs, inputs, loops, res):
@@ -147,7 +171,8 @@ def helper_unit(ctx, thorough):
     out.update({"helper_programs": len(srcs), "helper_programs_by_status": dict(stats), "generated": dict(gstats), "call_sites": dict(sites),
                 "helper_return_types": dict(fst), "loop_passes": dict(collections.Counter(loops)),
                 "nontrivial": len({s for s, r in zip(srcs, res) if r["status"] == "equal" and len(r["py"]) >= 3}),
-                "samples": [srcs[len(H.CORPUS)][len(progen.HEADER):]] if len(srcs) > len(H.CORPUS) else []})
+                "layout_noise": dict(nstats),
+                "samples": [srcs[n_corpus][len(progen.HEADER):]] if len(srcs) > n_corpus else []})
     return out
 
 
@@ -235,6 +260,35 @@ CORPUS = [
     {"pre": [("assign", "w0", "0"), ("while", "(w0 < 2)", [("for", "k0", "(1 - w0)", [("assign", "i5", "5")]), ("assign", "w0", "(w0 + 1)"), ("write", "i5")]),
              ("for", "k1", "2", [("if", [("(k1 < 2)", [("for", "k2", "(1 - k1)", [("assign", "i6", "(k2 + 8)")])])], []), ("write", "i6")])],
      "main": [("assign", "i5", "(i5 + i6)"), ("write", "i5")]},
+]
+
+
+# programs that are only run under layout noise: blocks of every kind whose condition is FALSE / whose loop count is not 1 in
+# some pass, each with several statements (a statement that leaves its block - because a comment-only or blank line was taken
+# for the end of the block - runs unconditionally / a different number of times and changes the trace), else / elif arms
+# behind such blocks (a chain cut short loses its else), nesting three deep, and the same inside the main loop
+LAYOUT_CORPUS = [
+    {"pre": [("assign", "i0", "2"), ("if", [("(i0 > 5)", [("write", '"then"'), ("assign", "i0", "5"), ("write", "i0")])], []), ("write", "i0"),
+             ("if", [("(i0 > 5)", [("write", '"a"'), ("write", '"b"')]), ("(i0 > 3)", [("write", '"c"'), ("write", '"d"')])],
+              [("write", '"e"'), ("assign", "i0", "(i0 + 1)"), ("write", "i0")]),
+             ("for", "k0", "0", [("write", '"never"'), ("write", "k0"), ("assign", "i0", "99")]),
+             ("for", "k1", "3", [("write", "k1"), ("assign", "i0", "(i0 + k1)"), ("write", "i0")]),
+             ("assign", "w0", "5"), ("while", "(w0 < 3)", [("write", '"w"'), ("assign", "w0", "(w0 + 1)"), ("write", "w0")]), ("write", "(i0 + w0)")],
+     "main": None},
+    {"pre": [("assign", "i0", "0"), ("assign", "i1", "0")],
+     "main": [("assign", "i0", "(i0 + 1)"),
+              ("if", [("(i0 % 3 == 0)", [("write", '"fizz"'), ("sleep", "20"), ("assign", "i1", "10"), ("write", "i1")])],
+               [("write", "i0"), ("assign", "i1", "(i1 + 1)"), ("write", "i1")]),
+              ("for", "k0", "(i0 % 2)", [("write", "(k0 + 100)"), ("if", [("(i1 > 10)", [("write", '"big"'), ("assign", "i1", "0"), ("write", "i1")])], []), ("write", '"k"')]),
+              ("write", "(i0 * 100 + i1)")]},
+    {"pre": [("assign", "i0", "1"), ("assign", "w0", "0"),
+             ("while", "(w0 < 2)", [("assign", "w0", "(w0 + 1)"),
+                                    ("if", [("(w0 == 5)", [("for", "k0", "2", [("write", "k0"), ("write", '"x"')]), ("write", '"five"'), ("assign", "i0", "50")])],
+                                     [("for", "k1", "w0", [("if", [("(k1 == 7)", [("write", '"seven"'), ("assign", "i0", "70"), ("write", "i0")])], []),
+                                                           ("write", "(k1 + i0)"), ("assign", "i0", "(i0 * 2)")]), ("write", "i0")]),
+                                    ("write", "w0")]),
+             ("write", "(i0 + w0)")],
+     "main": [("if", [("(i0 > 1000)", [("write", '"huge"'), ("assign", "i0", "0"), ("sleep", "5")])], []), ("assign", "i0", "(i0 + 1)"), ("write", "i0")]},
 ]
 
 
@@ -494,6 +548,11 @@ def same_lines(a, b):
     return True
 
 
+def src_of(p):
+    """the source text of a generated program AS IT WAS RUN (a noisy layout is drawn once and kept in p["_src"])"""
+    return p.get("_src") or progen.render(p)
+
+
 def model_predicts_deviation(ctx, p, l):
     """For a script whose firmware trace differs from CPython's: does the faithful model (Lang.Transl + StmtSem,
     run by Lang.StmtExec) itself compute a C trace different from its Python trace?  Then the script is outside
@@ -511,7 +570,7 @@ def model_predicts_deviation(ctx, p, l):
     ee = exec_exprs(an.exprs, const_inputs(p["input"]))
     if ee is None:
         return None
-    impl = C.run_impl("c01_stmt_impl.py", {"cases": [{"src": progen.render(p), "exprs": an.exprs}]})
+    impl = C.run_impl("c01_stmt_impl.py", {"cases": [{"src": src_of(p), "exprs": an.exprs}]})
     r = impl["results"][0]
     w = [1, SW.wire_stmts(pre, r["consts"]), [] if main is None else [SW.wire_stmts(main, r["consts"])], ee[0], l, 600]
     o = C.run_model(exe, [w])[0]
@@ -652,14 +711,14 @@ def ir_correspondence(ctx, progs, loops=None, res=None):
             extra.append((loops[k] if loops else 0, res[k] if res else None))
     if not cases:
         return {"ir_cases": 0}
-    impl = C.run_impl("c01_stmt_impl.py", {"cases": [{"src": progen.render(p), "exprs": an.exprs} for p, an, _, _ in cases]})
+    impl = C.run_impl("c01_stmt_impl.py", {"cases": [{"src": src_of(p), "exprs": an.exprs} for p, an, _, _ in cases]})
     meta = impl
     wires = [[SW.wire_stmts(pre, r["consts"]), [] if main is None else [SW.wire_stmts(main, r["consts"])]]
              for (p, an, pre, main), r in zip(cases, impl["results"])]
     outs = C.run_model(exe, wires)
     st = collections.Counter()
     for (p, an, pre, main), r, o in zip(cases, impl["results"], outs):
-        src = progen.render(p)[len(progen.HEADER):]
+        src = src_of(p)[len(progen.HEADER):]
         if "reject" in r["ir"]:
             st["impl-reject"] += 1
             if o != [1]:
@@ -688,7 +747,7 @@ def ir_correspondence(ctx, progs, loops=None, res=None):
             st["equal"] += 1
     out = {"ir_cases": len(cases), "ir_status": dict(st)}
     if res is not None:
-        items = [(progen.render(p)[len(progen.HEADER):], p, an, pre, main, r, l, pr)
+        items = [(src_of(p)[len(progen.HEADER):], p, an, pre, main, r, l, pr)
                  for (p, an, pre, main), r, (l, pr) in zip(cases, impl["results"], extra)]
         out.update(exec_correspondence(ctx, exe, items))
     return out
@@ -733,9 +792,17 @@ def run_unit(ctx: C.Ctx):
         n_fixed = replay_fixed(ctx)
     n = 1200 if thorough else 160
     progs, feats = [], []
+    nrng = random.Random(rng.getrandbits(64))          # layout noise has its own stream (derived from the seed)
+    nstats = collections.Counter()
+    noisy = []                                          # per program: rendered with layout noise?
     for cp in CORPUS:
         progs.append({"funcs": [], "pre": list(cp["pre"]), "main": cp["main"], "input": "ar 14 300\nar 15 2\ndr 4 1\n"})
         feats.append(("corpus",))
+        noisy.append(False)
+    for cp in CORPUS + LAYOUT_CORPUS:                   # every boundary program again under layout noise (LAYOUT_CORPUS: only so)
+        progs.append({"funcs": [], "pre": list(cp["pre"]), "main": cp["main"], "input": "ar 14 300\nar 15 2\ndr 4 1\n"})
+        feats.append(("corpus", "layout-noise"))
+        noisy.append(True)
     for i in range(n):
         f = FEATURE_SETS[i % len(FEATURE_SETS)]
         g = progen.Gen(rng, f)
@@ -748,7 +815,20 @@ def run_unit(ctx: C.Ctx):
         p["input"] = gen_inputs(rng, force_const="branch_first" in f)     # these are always run through the models too
         progs.append(p)
         feats.append(f)
-    srcs = [progen.render(p) for p in progs]
+        noisy.append((i // len(FEATURE_SETS)) % 2 == 1)          # every other round of the feature sets
+    srcs = []
+    for p, nz_on, f_ in zip(progs, noisy, feats):
+        if nz_on:
+            # comment-only lines at every column (0 .. indentation and deeper), blank lines, trailing comments on statements
+            # and headers: CPython ignores them all, so the oracle is unchanged; the text is kept for the IR correspondence
+            nz = progen.Noise(nrng, p_line=0.45) if "corpus" in f_ else progen.Noise(nrng)
+            p["_src"] = progen.render(p, noise=nz)
+            if not progen.same_python(p["_src"], progen.render(p)):
+                raise RuntimeError("harness bug: layout noise changed the program CPython reads:\n" + p["_src"])
+            nstats.update(nz.stats)
+            nstats["noisy-programs"] += 1
+            nstats["noisy-programs-with-dedented-comment-inside-block"] += 1 if nz.stats.get("dedented-comment-inside-block") else 0
+        srcs.append(src_of(p))
     loops = [(rng.choice([0, 1, 2, 3]) if p["main"] is not None else 0) for p in progs]
     res = run_pair(srcs, [p["input"] for p in progs], loops)
     stats = collections.Counter()
@@ -762,7 +842,7 @@ def run_unit(ctx: C.Ctx):
         stats[r["status"]] += 1
         body = s[len(progen.HEADER):]
         if r["status"] == "DIFF":
-            ctx.fail("firmware trace differs from CPython trace", {"script": s, "input": p["input"], "loops": l, "features": list(f)},
+            ctx.fail("firmware trace differs from CPython trace", {"script": s, "input": p["input"], "loops": l, "features": list(f) + (["layout-noise"] if "_src" in p else [])},
                      r["py"], {"first_difference": r["diff"], "firmware": r["fw"]}, key="trace-diff")
         elif r["status"] == "nocompile":
             ctx.fail("accepted script does not compile", {"script": s, "features": list(f)}, "compilable C++", r["log"], key="nocompile")
@@ -772,7 +852,16 @@ def run_unit(ctx: C.Ctx):
             ctx.fail(f"transpiler raised {r['exc']} (not ValueError)", {"script": s}, "ValueError or success", r, key="reject-kind")
     # lists (outside the statement model): firmware trace vs CPython trace only
     lsrcs = [progen.HEADER + b for b in LIST_CORPUS] + [progen.HEADER + gen_list_program(rng) for _ in range(60 if thorough else 12)]
-    lloops = [(rng.choice([0, 2, 3, 6]) if "while True:" in s_ else 0) for s_ in lsrcs]
+    lnstats = collections.Counter()
+    for k in range(len(lsrcs)):                         # every other list program under layout noise
+        if k % 2 == 1:
+            nz = progen.Noise(nrng)
+            t = progen.HEADER + progen.noisy_text(lsrcs[k][len(progen.HEADER):], nz)
+            if t != lsrcs[k]:
+                lsrcs[k] = t
+                lnstats.update(nz.stats)
+                lnstats["noisy-programs"] += 1
+    lloops = [(rng.choice([0, 2, 3, 6]) if has_main(s_) else 0) for s_ in lsrcs]
     lstats = collections.Counter()
     for s, l, r in zip(lsrcs, lloops, run_pair(lsrcs, ["" for _ in lsrcs], lloops)):
         lstats[r["status"]] += 1
@@ -819,6 +908,7 @@ def run_unit(ctx: C.Ctx):
                     "loop_passes": dict(collections.Counter(loops)), "with_main_loop": sum(1 for p in progs if p["main"] is not None),
                     "constant_inputs": sum(1 for p in progs if len(const_inputs(p["input"])) == 3),
                     "continue_by_innermost_loop": dict(conts), "programs_with_continue_by_status": dict(cont_progs),
+                    "layout_noise": dict(nstats), "list_layout_noise": dict(lnstats),
                     "fixed_witnesses_replayed_first": n_fixed, "helper_functions": hu}
     ctx.coverage.setdefault("distribution", {})["C01_stmt"] = distribution
     ctx.assumptions += [
